@@ -11,19 +11,6 @@ theorem mainExc_finished_iff (r : Result) (x : Exc) :
     mainExc (.finished r) = some x ↔ r = .raised x := by
   cases r <;> simp [mainExc]
 
-theorem result_of_terminal {s : State} (ht : terminal s = true) : ∃ r, s.main = .finished r := by
-  unfold terminal at ht
-  split at ht
-  · exact ⟨_, ‹_›⟩
-  · simp at ht
-
-theorem terminal_of_result {s : State} {r : Result} (h : result? s = some r) :
-    s.main = .finished r := by
-  unfold result? at h
-  split at h
-  · simp only [Option.some.injEq] at h; subst h; assumption
-  · simp at h
-
 /-! ### a read failure surfaces as the read error -/
 
 structure InvE (s : State) : Prop where
@@ -107,5 +94,43 @@ theorem Pend.result {d : Nat} {s : State} (h : Pend d s) (ht : terminal s = true
   rcases h with h | ⟨h, hx⟩
   · left; simp [result?, hm, h]
   · right; simp [result?, hm, h, hx]
+
+/-! ### a run that was neither cancelled nor hit by a read fault collects everything -/
+
+structure InvF (cfg : Cfg) (s : State) : Prop where
+  all : joined s.main = true → mainExc s.main = none → s.stop = false → s.rexc = false →
+    s.seen.Perm (List.range cfg.items.length)
+
+theorem InvF.init (cfg : Cfg) : InvF cfg (init cfg) := by
+  constructor; simp [Pipeline.init, joined]
+
+theorem InvF.step {cfg : Cfg} {s s' : State} (hI : Inv cfg s) (h : InvF cfg s) (hs : Step cfg s s') :
+    InvF cfg s' := by
+  obtain ⟨all⟩ := h
+  cases hs with
+  | main h' =>
+    cases h' with
+    | collectClosed rest hm hq =>
+      constructor
+      intro _ _ hst hx
+      exact closed_complete (s := s) hI hq hst hx
+    | _ =>
+      have hm := ‹s.main = _›
+      simp only [hm, joined, mainExc] at all
+      constructor <;> (try simp only [mainExc_joinTarget, mainExc_finished, joined_joinTarget]) <;>
+        (try simp only [mainExc, joined]) <;> grind
+  | reader h' =>
+    cases h' with
+    | begin hr t hn => cases hn <;> (constructor <;> grind)
+    | put k hr hc t hn => cases hn <;> (constructor <;> grind)
+    | close hr hc => constructor <;> grind
+  | hasher i h' => cases h' <;> (constructor <;> grind)
+  | janitor h' => cases h' <;> (constructor <;> grind)
+
+theorem InvF.of_reachable {cfg : Cfg} {s : State} (hrf : cfg.refuse = []) (h : Reachable cfg s) :
+    InvF cfg s :=
+  Reachable.induction (P := InvF cfg) (InvF.init cfg)
+    (fun _ _ _ hr hp hs =>
+      hp.step (Inv.of_reachable hrf hr) (Step.of_step hrf (InvA.of_reachable hr) hs)) h
 
 end Torf.Pipeline
